@@ -178,6 +178,7 @@ type GenResult struct {
 	OK       bool              `json:"ok"`
 	Err      string            `json:"err"`
 	Panic    string            `json:"panic"`
+	Dead     bool              `json:"dead"` // the driver process crashed or hung on this job (see Generate)
 	Warnings []string          `json:"warnings"`
 	Outputs  map[string]string `json:"outputs"`
 	Steps    []GenStep         `json:"steps"`
@@ -230,16 +231,48 @@ func tail(s string, n int) string {
 }
 
 // Generate runs the real generator on the jobs (in-process in the driver, 16 at a time).
+//
+// The generator can take the whole driver process down (a stack overflow from unbounded recursion is
+// fatal in Go) or never return: the batch is then bisected until the offending job is isolated, and that
+// job is reported with Dead = true -- an observation ("generation crashed or did not terminate"), not an
+// infrastructure failure.
 func (s *Scratch) Generate(jobs []GenJob) (map[string]*GenResult, error) {
 	res := map[string]*GenResult{}
-	err := pipe(filepath.Join(s.Dir, "gendrv.bin"), s.Dir, 20*time.Minute, jobs, func(m json.RawMessage) error {
-		var r GenResult
-		if err := json.Unmarshal(m, &r); err != nil {
+	var rec func(js []GenJob, depth int) error
+	rec = func(js []GenJob, depth int) error {
+		if len(js) == 0 {
+			return nil
+		}
+		part := map[string]*GenResult{}
+		timeout := 60*time.Second + time.Duration(len(js))*20*time.Millisecond
+		err := pipe(filepath.Join(s.Dir, "gendrv.bin"), s.Dir, timeout, js, func(m json.RawMessage) error {
+			var r GenResult
+			if err := json.Unmarshal(m, &r); err != nil {
+				return err
+			}
+			part[r.ID] = &r
+			return nil
+		})
+		if err == nil {
+			for k, v := range part {
+				res[k] = v
+			}
+			return nil
+		}
+		if len(js) == 1 {
+			res[js[0].ID] = &GenResult{ID: js[0].ID, Dead: true, Panic: "FATAL: the generator process died or hung on this job: " + tail(err.Error(), 600)}
+			return nil
+		}
+		if depth > 24 {
 			return err
 		}
-		res[r.ID] = &r
-		return nil
-	})
+		h := len(js) / 2
+		if err := rec(js[:h], depth+1); err != nil {
+			return err
+		}
+		return rec(js[h:], depth+1)
+	}
+	err := rec(jobs, 0)
 	return res, err
 }
 
